@@ -688,6 +688,34 @@ pub fn c09(ctx: &mut Ctx) {
             });
         }
     }
+    // long prefixes: the value starts near / ends beyond the 16-bit boundary of the writer position, and far beyond it
+    let long_prefixes: Vec<Vec<u8>> = vec![vec![0x5a; 65_500], vec![0x5a; 65_535], vec![0x5a; 65_536], vec![0xa5; 70_001], vec![0x11; 1_020], vec![0x11; 1_024]];
+    for (name, m) in msgs.iter().filter(|(_, m)| rf::enc_message(m).len() < 200).take(6) {
+        for p in &long_prefixes {
+            ctx.case(&format!("{name}-longprefix{}", p.len()), &|| format!("encode-messages {} {}", hexz(p), msg_desc(m)), || {
+                let real = rf::build_message(m).expect("representable");
+                let alone = enc_msg(&real);
+                let mut w = writer_with(p);
+                real.write(&mut w);
+                let want: Vec<u8> = [p.clone(), alone].concat();
+                ensure!(w.data == want, format!("prefix({} octets) ++ encode(v), {} octets", p.len(), want.len()), format!("{} octets, tail {}", w.data.len(), hex_short(&w.data[w.data.len().saturating_sub(40)..], 60)));
+                Ok(())
+            });
+        }
+    }
+    for (i, v) in avps.iter().enumerate().step_by(9).take(12) {
+        for p in &long_prefixes {
+            ctx.case(&format!("avp-k{}-{i}-longprefix{}", v.kind, p.len()), &|| format!("encode-avps {} {}", hexz(p), avp_desc(v)), || {
+                let a = rf::build(v).expect("representable");
+                let alone = enc_avp(&a);
+                let mut w = writer_with(p);
+                a.write(&mut w);
+                let want: Vec<u8> = [p.clone(), alone].concat();
+                ensure!(w.data == want, format!("prefix({} octets) ++ encode(v), {} octets", p.len(), want.len()), format!("{} octets", w.data.len()));
+                Ok(())
+            });
+        }
+    }
     // several values into one writer
     let small: Vec<&(String, MsgV)> = msgs.iter().filter(|(_, m)| rf::enc_message(m).len() < 200).step_by(3).take(8).collect();
     for l in piece_lists(3, small.len()).into_iter().filter(|l| l.len() >= 2) {
